@@ -42,6 +42,14 @@ def fb_key(fb):
     return n[4:] if n.startswith("get_") else n
 
 
+def declared_order(cfg):
+    """Components in the order the framework sees them: annotations of base robot classes first."""
+    cs = cfg["components"]
+    if not cfg.get("split_robot"):
+        return list(cs)
+    return [c for c in cs if c.get("in_base_robot")] + [c for c in cs if not c.get("in_base_robot")]
+
+
 def period_us(cfg):
     return int(cfg["period"] * 1e6)
 
@@ -63,7 +71,7 @@ class RobotModel:
         self.p = period_us(cfg)
         self.expiry = None
         self.cap = cfg["cap_waits"]
-        self.comps = cfg["components"]
+        self.comps = declared_order(cfg)
         self.outcome = ("returned",)
         self.sessions = []          # (mode, iterations)
         # embedded state machines (integration runs): components that are StateMachines,
